@@ -285,7 +285,13 @@ def check_history(sc, obs):
                 bad.append(("C02", "offer-delivered-twice", "offer of C%d reached polls P%d and P%d" % (c["k"], got[c["k"]], pk)))
             got[c["k"]] = pk
             fp = DEFAULT_FP if c["fp"] == "-" else c["fp"]
-            lists = sc.lists_from(c["t"])    # the list the client was checked against, then every later one
+            # C02_relay_url_not_older_than_request, clause by clause: lists = the list current at the client's request
+            # (position length - c_epoch of the model's history; C02_client_checked: the client is checked against it)
+            # followed by every list installed later (the positions before it); the relay URL must be what ONE OF THESE
+            # configures for the client's fingerprint - with no later installation that is the list-at-request URL.
+            # A URL that only a list replaced BEFORE the request configures is excluded by the theorem (positions
+            # beyond length - c_epoch) and reported here as relay-url-stale; any other address as wrong-relay-url.
+            lists = sc.lists_from(c["t"])
             if fp not in lists[0]:
                 bad.append(("C02", "unknown-bridge-matched", "client C%d named unknown bridge %s but P%d got its offer" % (c["k"], fp, pk)))
             elif relay not in [b[fp] for b in lists if fp in b]:
